@@ -27,17 +27,17 @@ pass in every case: the defects were invisible to them), runs the quick check of
 named in §7 and expects exit 1 with a VIOLATION line, then restores /repo. Result: every revert
 is detected (`selftest/revert_report.txt`).
 
-**(b) %d changes written by independent sub-agents** in five rounds of 40. Each agent received only
+**(b) %d changes written by independent sub-agents** in six rounds of 40. Each agent received only
 the text of one property and a scratch worktree (nothing from /verif; from round 2 on also a
 two-line summary of the ideas already used for that property, so that it would look elsewhere;
-in round 5 also the request to make the change correct for every input of normal size and wrong
-only far outside) and produced changes that compile, pass the 38 existing tests, break the
+in rounds 5 and 6 also the request to make the change correct for every input of normal size and
+wrong only far outside, or visible to one consumer of an intermediate result only) and produced changes that compile, pass the 38 existing tests, break the
 property, and need something specific to manifest; each came with a demonstration test. I
 re-confirmed every one in a scratch worktree (suite passes with the change, demo fails with it,
 demo passes without it) before keeping it as `/verif/seeded/<id>-<k>/` (`patch.diff`,
 `demo_test.go`, `notes.md`, `meta.json`). Detected by the property's quick check as it stood
 when the seed arrived: round 1 27/40, round 2 23/40, round 3 29/40, round 4 25/40, round 5
-12/40 (116 of 200 overall) - the agents were told what had been tried, so each round looked
+12/40, round 6 14/40 (130 of 240 overall) - the agents were told what had been tried, so each round looked
 where the checks had not yet been shown to look. Every miss was analysed and the check
 strengthened *in general terms* (a new family, alphabet member, leg or oracle, never a
 special case for the seed); after that %d of %d are detected by the quick check of the
